@@ -18,7 +18,7 @@ def g_int(rng):
         return rng.choice([0, 1, -1, 2, 10, 100, -100])
     if r < 0.9:
         return rng.choice([2**53, 2**53 + 1, -(2**53) - 1, 2**63, 10**20])
-    return rng.choice([10**400, -(10**400), 2**1024, 2**1023])
+    return rng.choice([10**400, -(10**400), 2**1024, 2**1023]) if rng.random() < 0.3 else rng.randint(-9, 9)
 
 
 def g_float(rng):
@@ -203,6 +203,24 @@ def g_type(rng, depth, cfg=None, top=True):
     if k == 'struct':
         names = rng.sample(['x', 'y', 'name', 'val'], rng.randint(1, 3))
         return ('struct', [(n, g_type(rng, depth - 1, cfg, True)) for n in names])
+    if k == 'union' and cfg.get('overlap') and rng.random() < 0.5:
+        fam = rng.choice([
+            [('scalar', 'int'), ('scalar', 'float')], [('scalar', 'float'), ('scalar', 'int')],
+            [('scalar', 'bool'), ('scalar', 'int')], [('scalar', 'int'), ('scalar', 'bool')],
+            [('scalar', 'float'), ('scalar', 'complex'), ('scalar', 'int')],
+            [('seq', 'list', ('scalar', 'int')), ('seq', 'tuple', ('scalar', 'float'))],
+            [('seq', 'tuple', ('scalar', 'float')), ('seq', 'list', ('scalar', 'int')), ('tuple', [('scalar', 'int'), ('scalar', 'int')])],
+            [('scalar', 'str'), ('literal', ['a', 'b'])], [('literal', ['a', 'b']), ('scalar', 'str')],
+            [('literal', [1, 2]), ('scalar', 'float')],
+            [('dict', ('scalar', 'str'), ('scalar', 'int')), ('class', g_class(rng, 1, cfg))],
+            [('class', g_class(rng, 1, cfg)), ('dict', ('scalar', 'str'), ('any',))],
+            [('class', g_class(rng, 1, cfg)), ('class', g_class(rng, 1, cfg))],
+            [('seq', 'set', ('scalar', 'int')), ('seq', 'list', ('scalar', 'int'))],
+            [('none',), ('scalar', 'int'), ('scalar', 'float')],
+            [('cond', ('scalar', 'int'), ('adj', 'positive')), ('scalar', 'int')],
+            [('cond', ('scalar', 'int'), ('adj', 'positive')), ('cond', ('scalar', 'float'), ('adj', 'negative')), ('scalar', 'str')],
+        ])
+        return ('union', fam)
     if k == 'union':
         ms = []
         for _ in range(rng.randint(2, 4)):
@@ -220,6 +238,7 @@ def g_type(rng, depth, cfg=None, top=True):
         for v in rng.sample(pool, rng.randint(1, 3)):
             if not any(v == u and type(v) is type(u) for u in vals):
                 vals.append(v)
+        vals.sort(key=lambda v: (type(v).__name__, repr(v)))
         return ('literal', vals)
     if k == 'enum':
         style = rng.random()
@@ -442,6 +461,8 @@ def mutate(rng, v):
         c = rng.random()
         if d and c < 0.3:
             del d[rng.choice(list(d))]
+        elif c < 0.1 + 0.3:
+            d[rng.choice(['kind', 'type', 't', 'tag'])] = rng.choice([[1], {}, {'a': 1}, None, 1.5, 'zz', ('a',)])
         elif c < 0.55:
             d[rng.choice(['zz', 'extra', 'a', 'A', 'kind', 'a_alias', 'my_field', 'myField', 'a_in'])] = g_scalar_value(rng)
         elif d and c < 0.8:
